@@ -23,7 +23,7 @@ QUICK_ALPHABET = ["to_f16", "to_bf16", "to_f32", "to_f64", "double", "half", "to
                   "deriv_to_f32", "gdef_f64", "gdef_f32", "eval"]
 FULL_ALPHABET = QUICK_ALPHABET + ["float", "bfloat16", "to_inst_none", "deriv_double", "to_int", "to_kw_f32", "float64", "float16",
                                   "to_tensor_bf16", "simulate_big", "deriv_half", "deriv_bfloat16", "deriv_float", "deriv_float64",
-                                  "deriv_float16", "deriv_to_tensor_f64", "reg_int", "reg_bool"]
+                                  "deriv_float16", "deriv_to_tensor_f64", "reg_int", "reg_bool", "reg_alias"]
 
 
 def make_primary(name):
@@ -183,6 +183,12 @@ def run_sequence(case, ctx):
                     payload = torch.ones(2, 3, dtype=torch.int64) if o == "reg_int" else torch.ones(2, 3, dtype=torch.bool)
                     ul.register_buffer("flag", payload)
                     model.buf["flag"] = model.D if model.D is not None else payload.dtype
+                elif o == "reg_alias":
+                    # the current series kept under a second name (e.g. to compare with the next simulation): one tensor, two buffers
+                    cur_b = dict(ul.named_buffers())
+                    if "spot" in cur_b:
+                        ul.register_buffer("flag", cur_b["spot"])
+                        model.buf["flag"] = model.D if model.D is not None else cur_b["spot"].dtype
                 elif o == "gdef_f64":
                     torch.set_default_dtype(torch.float64)
                 elif o == "gdef_f32":
@@ -321,7 +327,7 @@ SUBS = [
         enumerate=enumerate_sequences, exhaustive=True, time_cap={"quick": 240.0, "thorough": 3000.0}),
     Sub("random_histories", run_sequence,
         rule="Hypothesis lists of 4..12 ops over the full alphabet (adds float, bfloat16, float64, float16, to(dtype=), to(instrument "
-             "without dtype), derivative.double, to(tensor bf16), simulate with another n_paths, register_buffer(int64 / bool payload), to(int/bool/complex) -> TypeError), both initial "
+             "without dtype), derivative.double, to(tensor bf16), simulate with another n_paths, register_buffer(int64 / bool payload, or the current series under a second name), to(int/bool/complex) -> TypeError), both initial "
              "global default dtypes. Non-trivial as above.",
         strategy=lambda tier: random_history(), examples={"quick": 1600, "thorough": 16000}, fuzz={"thorough": 120.0}),
 ]
